@@ -168,10 +168,52 @@ def _sensitivity_audit(pid: str, out) -> Dict[str, Any]:
         res['seeded_changes'] = _seed_audit(pid, out)
     except Exception as e:
         res['seeded_changes'] = f'not run: {e.__class__.__name__}: {e}'
+    try:
+        res['behaviour_preserving_refactorings'] = _refactor_audit(pid, out)
+    except Exception as e:
+        res['behaviour_preserving_refactorings'] = f'not run: {e.__class__.__name__}: {e}'
     c = res.get('catalogue')
     if isinstance(c, dict):
-        out(f"AUDIT property={pid} catalogue={c['cases']} {c['by_status']} seeded={res.get('seeded_changes')}")
+        rf = res.get('behaviour_preserving_refactorings')
+        out(f"AUDIT property={pid} catalogue={c['cases']} {c['by_status']} seeded={res.get('seeded_changes')} "
+            f"refactorings={rf.get('summary') if isinstance(rf, dict) else rf}")
     return res
+
+
+def _refactor_audit(pid: str, out) -> Dict[str, Any]:
+    """Every adopted behaviour-preserving refactoring (refactors/*: written by independent authors, equivalence and unchanged test results
+    confirmed) applied to a scratch copy and analysed with this property's quick rules: it must stay silent; "cannot decide" (exit 2) is
+    tolerated and listed; a violation is a false alarm of the checker and is flagged."""
+    import shutil
+    import subprocess
+    import tempfile
+    from concurrent.futures import ThreadPoolExecutor
+    root = os.path.join(VERIF, 'refactors')
+    names = [n for n in sorted(os.listdir(root))] if os.path.isdir(root) else []
+    names = [n for n in names if os.path.isfile(os.path.join(root, n, 'patch.diff'))]
+
+    def one(name: str):
+        tmp = tempfile.mkdtemp(prefix='gxstat-refac-')
+        try:
+            shutil.copytree(os.path.join(REPO_ROOT, 'src'), os.path.join(tmp, 'src'), ignore=shutil.ignore_patterns('__pycache__', '*.pyc'))
+            ap = subprocess.run(['patch', '-p1', '-s', '-d', tmp, '-i', os.path.join(root, name, 'patch.diff')], capture_output=True, text=True)
+            if ap.returncode != 0:
+                return name, 'patch-stale'
+            pr = subprocess.run([sys.executable, os.path.join(VERIF, 'gxstat', 'selftest_child.py'), pid, 'quick', tmp],
+                                capture_output=True, text=True, timeout=900, env=dict(os.environ, GXSTAT_REPO=tmp, GXSTAT_NO_EVIDENCE='1'))
+            return name, {0: 'silent', 1: 'FALSE-ALARM', 2: 'undecided'}.get(pr.returncode, f'exit {pr.returncode}')
+        finally:
+            shutil.rmtree(tmp, ignore_errors=True)
+    rows: Dict[str, str] = {}
+    with ThreadPoolExecutor(max_workers=int(os.environ.get('GXSTAT_AUDIT_JOBS', '8'))) as ex:
+        for name, st in ex.map(one, names):
+            rows[name] = st
+            if st == 'FALSE-ALARM':
+                out(f'AUDIT-ATTENTION property={pid} refactoring={name} status={st}')
+    cnt: Dict[str, int] = {}
+    for st in rows.values():
+        cnt[st] = cnt.get(st, 0) + 1
+    return {'summary': cnt, 'not_silent': {k: v for k, v in rows.items() if v != 'silent'}}
 
 
 def _seed_audit(pid: str, out) -> Dict[str, Any]:
